@@ -4,15 +4,103 @@ values; the armor is RFC 4648).  SpecV3 is written from doc/credential_v3_format
 against the model (layout, byte order, MAC coverage, subkey roles, DEK, zip header, fall-back); (b) real build against an
 independent python reference (hashlib/hmac/zlib/bz2 + openssl enc) that knows only the two subkeys: daemon -> reference parses
 to the requested fields, reference -> daemon is accepted with the same fields; (c) the suite's frozen credential."""
-import json, os
+import json, os, struct
 from ..vlib import leanlib, cbuild, judge
-from ..gen import g_dec
+from ..gen import g_dec, g_unpack
 from . import _cred_common as cc
 from . import _cred_checks as K
 from . import _v3ref as R
 from . import c01
 
 LEVEL = "proof"
+
+
+TOY_MAC_LEN = {2: 16, 3: 20, 4: 20, 5: 32, 6: 64}
+
+
+def v3_structure(raw, zip_magic):
+    """Structural reading of an UNENCRYPTED credential body under doc/credential_v3_format.txt (no cryptography needed): outer header,
+    MAC of the length its type implies, then either the compressed form (8-byte header: magic, original length) when the outer
+    header names a compression type, or the plain inner layer whose lengths add up.  Returns None or what is wrong."""
+    if len(raw) < 5 or raw[0] != 3:
+        return "version byte / truncated outer header"
+    cipher, mac, zp, rl = raw[1], raw[2], raw[3], raw[4]
+    if cipher != 0:
+        return None                                  # encrypted: not readable without the cipher
+    p = 5 + rl
+    ml = TOY_MAC_LEN.get(mac)
+    if ml is None or len(raw) < p + ml:
+        return "MAC type / truncated MAC"
+    inner = raw[p + ml:]
+    if zp != 0:
+        if len(inner) < 8 or struct.unpack(">I", inner[:4])[0] != zip_magic:
+            return "outer header names compression type %d but the inner layer does not start with the compression header" % zp
+        return None
+    if len(inner) < 9 or inner[8] not in (0, 4):
+        return "inner layer: salt / address length"
+    q = 9 + inner[8] + 24
+    if len(inner) < q + 4:
+        return "inner layer truncated"
+    (dl,) = struct.unpack(">I", inner[q:q + 4])
+    if len(inner) != q + 4 + dl:
+        return "outer header says not compressed, but the inner layer's lengths do not add up (payload length field %d, %d bytes follow)" % (dl, len(inner) - q - 4)
+    return None
+
+
+def emitted_under_faults(ctx, h):
+    """Whatever happens inside an encode - here: each primitive call (MAC, cipher, compression back end) failing in turn, toy build -
+    a credential that IS emitted must still be a v3 credential: structurally well-formed and accepted by the decoder with the
+    requested payload.  (A refused encode is fine.)"""
+    import re
+    zm = None
+    try:
+        src = open(os.path.join(os.path.dirname(__file__), "..", "..", "lean", "Munge", "Gen", "Dec.lean")).read()
+        zm = int(re.search(r"def ZIP_MAGIC : Int := (\d+)", src).group(1))
+    except Exception:
+        pass
+    if zm is None:
+        ctx.obligation("setup", "ZIP_MAGIC read from the generated constants", False, "")
+        return
+    pre = ["cred conf mackey=%s dekkey=%s" % (K.MK.hex(), K.DK.hex()), "cred replay-reset"]
+    cases = [dict(cipher=c, mac=m, zip=z, ttl=300, auth_uid=cc.ANY, auth_gid=cc.ANY, data=d, realm=b"", uid=31, gid=32, now=1000000, rnd=bytes(range(24)))
+             for (c, m, z, d) in [(0, 5, 3, b"compressible " * 12), (0, 3, 2, b"b" * 90), (0, 2, 3, b"q" * 40), (4, 5, 3, b"c" * 64), (0, 5, 0, b"plain")]]
+    ops, meta = list(pre), [None, None]
+    for ci, e in enumerate(cases):
+        for k in range(0, 14):
+            ops.append(K.enc_op(e, " pfail=%d" % k if k else "")); meta.append((ci, k))
+    rc, out, err = cbuild.run_lines([h], ops)
+    ops2, meta2 = list(pre), [None, None]
+    bad = None
+    nem = 0
+    for (m, l, o) in zip(meta, out, ops):
+        if not m:
+            continue
+        rsp, _ = cc.rsp_of(l)
+        if not (rsp.ok and rsp.kind == "enc"):
+            bad = bad or (o, "no well-formed encode reply"); continue
+        if rsp.error_num != 0 or not rsp.data:
+            continue
+        nem += 1
+        why = v3_structure(K.raw_of(rsp.data), zm)
+        if why:
+            bad = bad or (o, "emitted credential is not a v3 credential: " + why)
+        ops2.append("cred replay-reset"); meta2.append(None)
+        ops2.append("cred req %s now=1000001 peer=1:1 mem=-" % cc.hx(cc.dec_req(rsp.data))); meta2.append((o, cases[m[0]]))
+    rc2, out2, err2 = cbuild.run_lines([h], ops2)
+    for (m, l) in zip(meta2, out2):
+        if not m:
+            continue
+        rsp, _ = cc.rsp_of(l)
+        if not (rsp.ok and rsp.kind == "dec" and rsp.error_num == 0 and rsp.data == m[1]["data"]):
+            bad = bad or (m[0], "a credential the daemon emitted is not accepted back with the requested payload (reply code %s)" % (rsp.error_num if rsp.ok else "none"))
+    ctx.count(len(ops) + len(ops2)); ctx.dist("emitted_under_faults", nem)
+    for o in ops:
+        ctx.distinct(o)
+    ctx.obligation("oracle", "credentials emitted while primitives fail (%d emitted of %d encodes) are v3 credentials and decode" % (nem, len(ops) - 2),
+                   bad is None, bad[1] if bad else "")
+    if bad:
+        ctx.violation("format conformance (emitted under a failing primitive): " + bad[1],
+                      {"stream": "emitted-under-faults", "ops": [pre[0], bad[0]]}, found_input=True)
 
 
 def run(ctx):
@@ -27,6 +115,9 @@ def run(ctx):
         drv = leanlib.driver(ctx); h = cc.build_toy(ctx)
         judge.run_and_judge(ctx, "replay", rep.get("ops") or [], [h], [drv], what="format conformance (replay)")
         return
+    # the model's parsers are proved to be the parsers of dec.c (translated by the K+cursor translator)
+    if g_unpack.generate(ctx):
+        leanlib.check_props(ctx, "UnpackRef")
     leanlib.check_props(ctx, "C10")
     drv = leanlib.driver(ctx)
     htoy = cc.build_toy(ctx)
@@ -35,6 +126,8 @@ def run(ctx):
     n = 150 if ctx.tier == "quick" else 1500
     if drv and htoy:
         c01.two_pass(ctx, htoy, drv, "format-toy", K.enc_cases(r, n))
+    if htoy:
+        emitted_under_faults(ctx, htoy)
     if not hreal:               # (a harness that no longer builds is already a failed obligation; the real-primitive streams still run without the toy one)
         return
     # ---- daemon -> reference
